@@ -1,13 +1,13 @@
 SPECIFICATION Spec
 CONSTANTS
-  Ls = {2, 3, 4, 5}
+  Ls = {2, 3, 4}
   Rs = {1, 2, 3}
-  Xs = {0}
+  Xs = {0, 2}
   Ds = {2, 4}
   Norms = {FALSE, TRUE}
   MethodsC <- AllMethods
-  Mutant <- NoMutant
-  Emit = TRUE
+  Mutant = "normalize-after-reverse"
+  Emit = FALSE
 INVARIANT BondCap
 INVARIANT CentreWherePromised
 INVARIANT ValueKept
